@@ -235,6 +235,37 @@ def run(ctx, report):
                                       "what": f"{cname} is reported as sorted across row groups but it is not", "sig": "spc:" + kind})
         except Exception as e:  # noqa
             report.notes.append("sorted_partitioned_columns raised: " + canon_err(e)) if len(report.notes) < 10 else None
+        # the same handle after derived queries: statistics must still describe every row group
+        try:
+            import copy as _copy
+            before = _copy.deepcopy(pf.statistics)
+            from fastparquet.api import filter_row_groups
+            for _rep in range(2):
+                thr = int(df["rid"].iloc[len(df) // 2])
+                flt = [("rid", ">=", thr)]
+                kept = filter_row_groups(pf, flt, as_idx=True)
+                spcf = sorted_partitioned_columns(pf, filters=flt)
+                for cname, mm in spcf.items():
+                    if len(mm["min"]) != len(kept):
+                        report.violation({"check": "spc-filtered", **desc, "column": cname, "sig": "spc-filtered-length",
+                                          "what": f"sorted_partitioned_columns(filters) lists {len(mm['min'])} row groups, {len(kept)} are kept"})
+                after = pf.statistics
+                for stat in ("min", "max", "null_count"):
+                    for cname, lst in after[stat].items():
+                        if len(lst) != len(pf.row_groups) and lst != [None]:
+                            report.violation({"check": "stats-after-queries", **desc, "column": cname, "sig": "stats-cache-corrupted",
+                                              "what": f"after sorted_partitioned_columns(filters=...), statistics[{stat!r}][{cname!r}] has {len(lst)} entries for {len(pf.row_groups)} row groups"})
+                            raise StopIteration
+                        if repr(lst) != repr(before[stat][cname]):
+                            report.violation({"check": "stats-after-queries", **desc, "column": cname, "sig": "stats-cache-changed",
+                                              "what": f"statistics[{stat!r}][{cname!r}] changed after a filtered sorted_partitioned_columns call on the same handle"})
+                            raise StopIteration
+                report.evaluations += 1
+        except StopIteration:
+            pass
+        except Exception as e:  # noqa
+            report.violation({"check": "stats-after-queries", **desc, "sig": "stats-after-queries-raised",
+                              "what": "repeating sorted_partitioned_columns(filters=...) / statistics on the same handle raised: " + canon_err(e) + " " + str(e)[:80]})
         os.remove(path)
     if reqs and ctx.model_ok:
         reps = ctx.driver.ask([r[0] for r in reqs])
